@@ -46,12 +46,21 @@ Theorem C05_one_root_row_per_object : forall S alts pk l r dr s1,
   (forall x i, mlook x s1 = Some i -> i < nxt s1).
 Proof. exact one_root_row_per_object. Qed.
 
-(* outside F05: a single reference into the own hierarchy, two sources sharing the target (finding C05-a) *)
-Theorem C05_refuted_selfref :
+(* regression example (finding C05-a, FIXED by repo commit 22a99b9): on a schema in which a single reference into the own
+   hierarchy is read as ONETOMANY ([s_selfref] non-empty, what the generator produced before it emitted remote_side), two
+   sources sharing the target lose one link.  Since 22a99b9 the mappers of the generated layers yield s_selfref = [], so
+   such references lie inside F05 and are covered by C05_reload. *)
+Example C05_regression_selfref_schema :
   wf_heap selfref_heap2 0 = true /\
   exists r' s2, reload selfref_schema2 [] (pk_id 1) selfref_heap2 0 = Some (r', s2) /\
     ~ iso (dst s2) r' (heap_of selfref_heap2) 0.
 Proof. exact refuted_selfref. Qed.
+
+(* the same graph on the schema the repaired generator produces (no ONETOMANY single reference) reloads correctly *)
+Example C05_selfref_now_inside :
+  let S := mkSchema [] [] [(1%Z, [2%Z]); (5%Z, [7%Z])] [] in
+  frag_code S [] selfref_heap2 0 = 7%Z /\ model_reload S [] selfref_heap2 0 = spec_canon selfref_heap2 0.
+Proof. split; vm_compute; reflexivity. Qed.
 
 (* outside F05: a collection holding the same element twice (finding C05-b) *)
 Theorem C05_refuted_repeated_element :
@@ -81,5 +90,4 @@ Print Assumptions C05_load_flush.
 Print Assumptions C05_reload.
 Print Assumptions C05_reload_src.
 Print Assumptions C05_one_root_row_per_object.
-Print Assumptions C05_refuted_selfref.
 Print Assumptions C05_refuted_repeated_element.
